@@ -475,6 +475,18 @@ struct Transfer {
         return o.str();
     }
 
+    static void fireTimers(QXmppTransferJob *job)
+    {
+        const auto timers = job->findChildren<QTimer *>(QString(), Qt::FindDirectChildrenOnly);
+        for (QTimer *t : timers) {
+            if (!t->isActive() || !t->isSingleShot()) continue;
+            const int interval = t->interval();
+            t->start(0);
+            QElapsedTimer guard; guard.start();
+            while (t->isActive() && guard.elapsed() < 5000) QCoreApplication::processEvents(QEventLoop::AllEvents, 2);
+            t->setInterval(interval);
+        }
+    }
     std::string apply(const std::string &op)
     {
         history += op + ";";
@@ -499,6 +511,10 @@ struct Transfer {
         } else if (w == "deliverws") {
             // honest delivery with the base64 text broken up by white space (not a fault)
             if (pending) { Ibb p = *pending; pending.reset(); p.spaced = true; feed(toReceiver(p)); }
+        } else if (w == "timeout") {
+            // the 120 s inactivity interval elapses: fire the running in-band timers of both jobs now (they are plain QTimer
+            // children of the job objects; no hook in the library is needed)
+            fireTimers(sj); fireTimers(rj);
         } else if (w == "lose") {
             if (pending) { pending.reset(); if (onData) faults++; }
         } else if (w == "rinj") {
@@ -596,7 +612,7 @@ struct Transfer {
             if (c.sender == 0 && c.sid == 0 && c.kind == Ibb::Data) altered = true;
         }
         if (faults > faultsOnlyBefore) faultKind = w;
-        if (w != "deliver" && w != "deliverws" && w != "inj" && faults + harmlessDups == faultsBefore) otherOps++;
+        if (w != "deliver" && w != "deliverws" && w != "inj" && w != "timeout" && faults + harmlessDups == faultsBefore) otherOps++;
         return observe();
     }
 
@@ -664,7 +680,8 @@ static void judge(Transfer &t, const Case &c, const std::string &replay)
              (t.sink.lossy() && t.rj->error() == QXmppTransferJob::FileAccessError));
         if (t.rSuccess()) oracleFail("C19:fault-but-success", replay);
         else if (!reported) {
-            // the block (or the answer to it) vanished and nothing follows: the library has no timeout, both jobs wait forever
+            // the block (or the answer to it) vanished and nothing follows: before repo commit afd7dc9 the library had no
+            // timeout and both jobs waited for ever (key kept for that regression)
             const bool silent = t.faultKind == "lose" || t.faultKind == "wsender";
             oracleFail(silent ? "C19:lost-stanza-hangs-forever" : "C19:fault-without-error-report", replay);
         } else oraclePass()++;
@@ -703,6 +720,8 @@ static void runCase(const Case &c)
         } else {
             while (t.pending && guard++ < 200) { corr("deliver", t.apply("deliver")); totalOps++; }
         }
+        // … and enough time: whatever is still waiting for a stanza that will never come gives up
+        corr("timeout", t.apply("timeout")); totalOps++;
     }
     std::string replay = reset.substr(0, 300) + " :: " + t.history.substr(0, 600);
     judge(t, c, replay);
@@ -1040,6 +1059,17 @@ int main(int argc, char **argv)
         big.ops = { "run 65535", "deliver", "deliver", "deliver", "deliver", "deliver", "deliver" };
         runCase(big);
         stat("wrap_cases");
+    }
+    // (a2) witnesses of findings fixed in the library, kept so that they stay fixed:
+    //      a lost block with nothing following (afd7dc9: the inactivity timer ends both jobs with ProtocolError — the harness
+    //      fires the jobs' QTimer children, see the `timeout` op), a short-writing device with hash but no size announced
+    //      (705738b: FileAccessError), accept(filePath) read back inside finished() and /dev/full (e785bd1: section 7)
+    runCase({ 2, 4096, true, "hex", QByteArray("hello"), { "deliver", "deliver", "lose" } });
+    runCase({ 2, 4096, true, "hex", QByteArray("hello"), { "deliver", "deliver", "wsender 2" } });
+    {
+        Case c { 2, 4096, true, "hex", QByteArray::fromHex("0102"), {} };
+        c.announceSize = false; c.dev = DevSpec { DevSpec::PerWrite, 1 };
+        runCase(c);
     }
     // (b) no hash announced, one bit flipped (recorded finding C19:nohash-altered-accepted) and its neighbours
     runCase({ 2, 4096, false, "hex", QByteArray::fromHex("b66071"), { "deliver", "flip 0" } });
